@@ -43,11 +43,10 @@ WhyNot == IF committed \/ finished THEN "I_Commit"
 \* gRFC A6 backoff interval for the k-th retry since the last pushback, exact integer arithmetic (ns)
 InRange(dt, k) ==
   LET b == cfg.boff
-      n == BoffInit(b) * Pow(BoffNum(b), k)
-      d == Pow(BoffDen(b), k) IN
+      p == BoffBase(b, k) IN
   /\ dt >= 0 /\ dt <= 2 * BoffMax(b)
-  /\ IF n >= BoffMax(b) * d THEN 5 * dt >= 4 * BoffMax(b) /\ 5 * dt <= 6 * BoffMax(b)
-                            ELSE 5 * dt * d >= 4 * n /\ 5 * dt * d <= 6 * n
+  /\ IF p = BCap THEN 5 * dt >= 4 * BoffMax(b) /\ 5 * dt <= 6 * BoffMax(b)
+                  ELSE 5 * dt * p[2] >= 4 * p[1] /\ 5 * dt * p[2] <= 6 * p[1]
 
 Skip == UNCHANGED <<rvars, drifted, opT>>
 Att ==
